@@ -34,7 +34,11 @@ pub fn requested_targets(e: &E) -> Vec<(Dest, Option<char>)> {
 }
 
 pub fn judge(tree: &E) -> Verdict {
-    let comp = match policy::compile_tree(tree, None, "/") {
+    judge_with_threads(tree, None)
+}
+
+pub fn judge_with_threads(tree: &E, threads: Option<u32>) -> Verdict {
+    let comp = match policy::compile_tree(tree, threads, "/") {
         CompileOutcome::Ok(c) => c,
         CompileOutcome::Err(_) => return Verdict::Skip("does not compile (C12)"),
         CompileOutcome::Panic(p) => return Verdict::Fail(format!("compile panicked on {tree:?}: {p}")),
@@ -114,7 +118,7 @@ fn case_json(t: &E) -> Value {
     json!({"kind": "tree", "tree": term::encode_expr(t), "text": crate::render::canonical(t)})
 }
 pub fn replay(case: &Value) -> Result<Verdict, String> {
-    Ok(judge(&term::decode_expr(case["tree"].as_str().ok_or("no tree")?)?))
+    Ok(judge_with_threads(&term::decode_expr(case["tree"].as_str().ok_or("no tree")?)?, case["threads_option"].as_u64().map(|t| t as u32)))
 }
 
 fn routing_action() -> BoxedStrategy<Act> {
@@ -186,14 +190,18 @@ pub fn run(ctx: &Ctx) -> Report {
     let rnd = run_shards(16, |shard| {
         let mut st = Stats::new();
         let leaf = prop_oneof![5 => routing_action().prop_map(E::A), 1 => Just(E::T(Tst::True)), 1 => Just(E::T(Tst::False)), 1 => Just(E::T(Tst::Name("a".into()))), 1 => Just(E::T(Tst::IName("*.C".into())))];
-        let strat = gen::expr_over(leaf.boxed(), 4, 12, true);
-        run_prop(&mut st, ctx.seed, "C10", shard as u64, cases / 16, &strat, judge, case_json);
+        let strat = (gen::expr_over(leaf.boxed(), 4, 12, true), prop_oneof![3 => Just(None), 1 => Just(Some(0u32)), 1 => Just(Some(1u32)), 1 => Just(Some(2u32)), 1 => gen::count_u32().prop_map(Some)]);
+        run_prop(&mut st, ctx.seed, "C10", shard as u64, cases / 16, &strat, |(t, th)| judge_with_threads(t, *th), |(t, th)| {
+            let mut j = case_json(t);
+            j["threads_option"] = json!(th);
+            j
+        });
         st
     });
     total.merge(rnd);
     Report {
         stats: total,
-        rule: "random operator trees over up to ~6 output actions drawn from {-print, -print0, -printf F\\n, -printf F, -fprint f, -fprint0 f, -fprintf f F, -print-file-fid, -quit} with f in {a,b,c} (so sharing and non-sharing both occur) and a few tests, executed on three files; plus chains with up to 300 distinct destinations. Oracle: framed mode iff some action writes to a file, NUL-terminates or prints a format whose last element is not the newline escape (computed on the specification side); plain mode has no destination table; in framed mode the table is a bijection between tags and the distinct requested (destination, terminator) pairs, the stdout stream of every file parses completely into frames, every tag is a key of the table, and aligning the frames with the outputs find's rules produce, table[tag] is the producing action's (destination, terminator). Non-trivial: >=3 requested pairs or a destination shared by different terminators, with at least one output produced. Distinct: by tree.".into(),
+        rule: "random operator trees over up to ~6 output actions drawn from {-print, -print0, -printf F\\n, -printf F, -fprint f, -fprint0 f, -fprintf f F, -print-file-fid, -quit} with f in {a,b,c} (so sharing and non-sharing both occur) and a few tests, executed on three files, compiled without and with a -threads option; plus chains with up to 300 distinct destinations. Oracle: framed mode iff some action writes to a file, NUL-terminates or prints a format whose last element is not the newline escape (computed on the specification side); plain mode has no destination table; in framed mode the table is a bijection between tags and the distinct requested (destination, terminator) pairs, the stdout stream of every file parses completely into frames, every tag is a key of the table, and aligning the frames with the outputs find's rules produce, table[tag] is the producing action's (destination, terminator). Non-trivial: >=3 requested pairs or a destination shared by different terminators, with at least one output produced. Distinct: by tree.".into(),
         assumptions: crate::checks::c02::runtime_assumptions(),
         exhaustive: false,
     }
